@@ -304,7 +304,8 @@ func model_ctx_TxBytes(ctx sdk.Context) []byte {
 
 //verif:model (*github.com/cosmos/cosmos-sdk/types.EventManager).EmitTypedEvent
 func model_em_EmitTypedEvent(em *sdk.EventManager, ev proto.Message) error {
-	W.events = append(W.events, ev)
+	// the real event manager serialises the message at call time: keep a snapshot, not the caller's pointer
+	W.events = append(W.events, verif_deep_copy(ev).(proto.Message))
 	return nil
 }
 
